@@ -206,3 +206,18 @@ func thmDeletePrunesPrefixes(t *Trie, b []byte, i int) {
 	//@ assert r && h ==> exists c int :: c != B[OB + SI] && heaphas(t.m)[walk(heaphas(t.m), heapval(t.m), t, B, OB, SI)][c]
 	_, _ = r, h
 }
+
+//@ theorem C15.hasPrefixClosed
+//@   props C15
+//@   requires t != nil
+//@   requires forall y ref, k int :: has(y.m, k) ==> y.m[k] != nil
+//@   requires 0 <= i && i <= len(x)
+// The held sequences are closed under taking prefixes: Has(x) implies
+// Has(x[:i]).
+func thmHasPrefixClosed(t *Trie, x []byte, i int) {
+	h := t.Has(x)
+	p := t.Has(x[:i])
+	//@ assert mark(offset(x)) && mark(len(x)) && mark(i)
+	//@ assert h ==> p
+	_, _ = h, p
+}
